@@ -11,6 +11,7 @@ Decided (structure of options.c):
   M1w the AND-NOT that clears a boolean is taken at the width of its target (not a narrower unsigned complement)
   M6  only the loop's cursors survive an iteration of the main loop (per-word flags and value pointers are re-established)
   N2  a word removed from argv is not read again before the index moves on (typestate + GHOSTPOS feasibility in the callee)
+  N3  the word handed to the long-option lookup has both hyphens consumed (may-dataflow of "byte at the cursor is '-'")
   B1  the argument-list handler writes only inside the list it allocated (CAP, strict)
 Not decided: final variable values, ordering, the word-count agreement of argument lists."""
 import re
@@ -158,12 +159,87 @@ def always_returns(stmt):
     return False
 
 
+def check_long_lookup_words(chk, prog, u):
+    """N3: the word handed to the long-option lookup has had both hyphens consumed.  May-dataflow over the letter cursor: the
+    fact "the byte at p is a hyphen" is established by a successful test `*p == '-'` and killed when p moves; a call
+    find_long_option(p) reached with that fact alive looks the name up with a hyphen still in front of it (never found: the
+    option is reported as unrecognised and its word is taken for the previous option's value)."""
+    lookups = {g.name for g in u.functions.values() if g.name.startswith("find_long")}
+    n = 0
+    for f in u.functions.values():
+        if f.body is None or f.cfg is None:
+            continue
+        calls = [c for c in X.calls_in(f.body) if X.callee_name(c) in lookups and len(c["ch"]) > 1]
+        if not calls:
+            continue
+        cfg = nullness.prepared_cfg(f, NORETURN)
+
+        def hyphen_test(cond):
+            c = X.strip(cond)
+            if c is None or c.get("k") != "bin" or c.get("op") not in ("==", "!="):
+                return None
+            for a, b in ((c["ch"][0], c["ch"][1]), (c["ch"][1], c["ch"][0])):
+                a_, cv = X.strip(a), X.const_val(b)
+                if cv == 45 and a_ is not None:
+                    t = None
+                    if a_.get("k") == "un" and a_.get("op") == "*":
+                        t = X.strip(a_["ch"][0])
+                    elif a_.get("k") == "index" and X.const_val(a_["ch"][1]) == 0:
+                        t = X.strip(a_["ch"][0])
+                    if t is not None and t.get("k") == "ref":
+                        return t["d"], c["op"] == "=="
+            return None
+
+        def transfer(st, node, blk):
+            k = node.get("k")
+            if k == "assign" or (k == "un" and node.get("op") in ("++", "--")):
+                t = X.strip(node["ch"][0])
+                if t.get("k") == "ref" and t["d"] in st:
+                    return st - {t["d"]}
+            if k == "assign" and node.get("op") == "=":
+                # p = q copies the fact
+                t, r = X.strip(node["ch"][0]), X.strip(node["ch"][1])
+                if t.get("k") == "ref" and r.get("k") == "ref" and r["d"] in st:
+                    return st | {t["d"]}
+            if k == "decl":
+                for d in node.get("decls", ()):
+                    if d.get("init") is not None and X.strip(d["init"]).get("k") == "ref" and X.strip(d["init"])["d"] in st:
+                        st = st | {d["d"]}
+            return st
+
+        def refine(st, cond, truth, blk):
+            ht = hyphen_test(cond)
+            if ht is not None and truth in (True, False):
+                d, eq = ht
+                if (truth is True) == eq:
+                    return st | {d}
+                return st - {d}
+            return st
+        hits = {}
+
+        def visit(st, node, blk):
+            if node.get("k") == "call" and X.callee_name(node) in lookups and len(node["ch"]) > 1:
+                a = X.strip(node["ch"][1])
+                hits[node["i"]] = a.get("k") == "ref" and a["d"] in st
+        flow.forward(cfg, frozenset(), transfer, refine=refine, join=lambda a, b: a | b, visit=visit)
+        for c in calls:
+            n += 1
+            bad = hits.get(c["i"], False)
+            chk.ob("N3", f.name, "long-name-without-hyphens:" + canon(f, c)[:40], not bad, loc=f.loc(c),
+                   detail="%s calls %s(%s) on a path where the byte at that pointer has just been tested to be '-' and the pointer has not "
+                          "moved: the long name is looked up with a hyphen still in front of it, is never found, and the word is then "
+                          "taken for the previous option's value" % (f.name, X.callee_name(c), X.render(c["ch"][1])[:20]),
+                   proof="no path reaches the call with a known hyphen at the cursor")
+    return n
+
+
 def run(tier="quick"):
     chk = Check("C08", level="other", tier=tier,
                 explanation="mask-only stores, pass-test control of every target store / handler call, loop-progress must-dataflow, "
                             "letter-cursor typestate, argv compaction shape")
     for rid, txt in (("M1", "boolean handler only ORs / AND-NOTs its mask"), ("M2", "target stores and handler calls are under SHOULD_PARSE"),
                      ("M3", "every way round the main loop advances"), ("M6", "per-word state (long/equal flags, value pointer) does not survive an iteration"), ("N1", "letter cursor never passes the terminator"), ("N2", "a word removed from argv is not read again before the index moves on"),
+                     ("N3", "the long-option lookup is handed the word with both hyphens consumed"),
                      ("M5", "argv compaction stays inside argv and terminates it"), ("B1", "the argument-list handler writes only inside the list it allocated")):
         chk.rule(rid, txt)
     prog = facts.extract(only=["options.c"])
@@ -434,6 +510,7 @@ def run(tier="quick"):
                       "removal enabled)" % (h.name, parse.loc(x), h.name, X.render(hits[0])[:30] if hits else ""),
                proof="no argv[E] read with E == i is feasible in %s" % h.name)
     chk.count("calls_after_word_removal", n_n2, floor=1)
+    chk.count("long_option_lookups", check_long_lookup_words(chk, prog, u), floor=2)
     # B1 argument-list handler: every store into the word list it allocates is within the allocation (CAP, strict: a bound that
     # cannot be established is reported), and what it hands to the string functions is a string
     from ..cap import Cap
